@@ -182,16 +182,23 @@ class Engine:
         # term shapes (plain vs clamped slice bounds, folded lengths) depend on these answers, so they must not flip under
         # load: first a cheap attempt on the arithmetic hypotheses only (sound: fewer hypotheses), then the full set with a
         # budget well above what an `unsat` needs here
+        # Both attempts are bounded by z3 RESOURCE limits (deterministic: the same query gets the same answer on a slow or loaded
+        # machine), sized to what the former wall-clock budgets (1 s / 3 s) allowed on the development machine; the wall-clock time-outs
+        # that remain are only a 10x safety net.  (`vp check` showed why: on another machine a wall-clock `unknown` here changed the
+        # shape of later terms and left one obligation of C01 undecided.)
+        rl = int(os.environ.get('VERIF_IMPLIED_RLIMIT', '60000000'))
         arith = [c for c in st.pc if not _mentions_seq_ops(c)]
         if len(arith) != len(st.pc):
             s = z3.Solver()
-            s.set('timeout', 1000)
+            s.set('rlimit', rl // 3)
+            s.set('timeout', 10000)
             s.add(*arith)
             s.add(z3.Not(t))
             if s.check() == z3.unsat:
                 return True
         s = z3.Solver()
-        s.set('timeout', int(os.environ.get('VERIF_IMPLIED_MS', '3000')))
+        s.set('rlimit', rl)
+        s.set('timeout', int(os.environ.get('VERIF_IMPLIED_MS', '30000')))
         s.add(*st.pc)
         s.add(z3.Not(t))
         return s.check() == z3.unsat
